@@ -469,7 +469,14 @@ async fn run_raw(stim: &Value, log: &Rec) {
         let payload = if flag == 1 { crate::labs::framing::compress_with(raw["comp"].as_str().unwrap_or(""), &msg) } else { msg };
         crate::labs::framing::frame(flag, &payload)
     };
-    let body = Body::new(http_body_util::Full::new(Bytes::from(body_bytes)));
+    // the request body arrives either whole with its exact size announced (like a content-length), or - a third of the time - in two
+    // halves with empty DATA frames before, between and after them (legal for any HTTP/2 peer)
+    let body = if body_bytes.len() % 3 == 1 {
+        let mid = body_bytes.len() / 2;
+        let mut q = std::collections::VecDeque::new();
+        for c in [&body_bytes[..0], &body_bytes[..mid], &body_bytes[..0], &body_bytes[mid..], &body_bytes[..0]] { q.push_back(crate::labs::framing::BItem::Data(c.to_vec())); }
+        Body::new(crate::labs::framing::ScriptBody { items: q, polls_after_end: Default::default(), ended: false, fused: true })
+    } else { Body::new(http_body_util::Full::new(Bytes::from(body_bytes))) };
     let req = b.body(body).expect("raw request");
     log.ev(json!({"e":"raw_sent","skipped":skipped,"list":headers_json(req.headers())}));
     let resp = stack.ready().await.unwrap().call(req).await;
